@@ -373,6 +373,74 @@ pub fn run(tier: Tier, seed: u64) -> i32 {
                 }
             }
         }
+        // compilations in the presence of other live filters: what a filter answers must not depend
+        // on which other expressions - same pattern under another operator, same text on another
+        // scheme - are alive when it is compiled (process-wide interning, shared compiled parts)
+        {
+            let long_a = "*.Static-Assets.Example-Content-Delivery.Net";
+            let long_b = "Img7.Static-Assets.Example-Content-Delivery.Net-And-Some-More-Bytes";
+            let twins: Vec<String> = vec![
+                format!("s wildcard \"{long_a}\""),
+                format!("s strict wildcard \"{long_a}\""),
+                format!("s wildcard r\"{long_a}\""),
+                format!("s matches \"{long_b}\""),
+                format!("s contains \"{long_b}\""),
+                format!("s == \"{long_b}\""),
+                format!("s in {{\"{long_b}\" \"{long_a}\"}}"),
+                format!("s strict wildcard \"{long_b}\""),
+                format!("s wildcard \"{long_b}\""),
+                format!("any(xs[*] wildcard \"{long_a}\")"),
+                format!("any(xs[*] strict wildcard \"{long_a}\")"),
+            ];
+            let values: Vec<Vec<u8>> = vec![
+                b"img7.static-assets.example-content-delivery.net".to_vec(),
+                b"Img7.Static-Assets.Example-Content-Delivery.Net".to_vec(),
+                long_b.as_bytes().to_vec(),
+                long_b.to_ascii_lowercase().into_bytes(),
+                b"x".to_vec(),
+            ];
+            let tctxs: Vec<ExecutionContext<'static>> = values
+                .iter()
+                .map(|v| {
+                    let mut m = MCtx::new();
+                    m.insert("s".into(), V::Bytes(v.clone()));
+                    m.insert("xs".into(), V::arr(Ty::Bytes, vec![V::Bytes(v.clone()), sb(b"ab")]));
+                    real_ctx(&w1.scheme, &m)
+                })
+                .collect();
+            // a second scheme object with the same shape: expressions on it are "other" expressions too
+            let other_scheme = w1.uni.build();
+            let alone = |text: &str| -> Vec<bool> {
+                let f = w1.scheme.parse(text).expect("twin parses").compile();
+                tctxs.iter().map(|c| f.execute(c).expect("same scheme")).collect()
+            };
+            let baseline: Vec<Vec<bool>> = twins.iter().map(|t| alone(t)).collect();
+            for (a, ta) in twins.iter().enumerate() {
+                for (b, tb) in twins.iter().enumerate() {
+                    if a == b {
+                        continue;
+                    }
+                    for on_other_scheme in [false, true] {
+                        // `ta` is parsed (and compiled) first and stays alive while `tb` is compiled and run
+                        let sch = if on_other_scheme { &other_scheme } else { &w1.scheme };
+                        let ast_a = sch.parse(ta).expect("twin parses");
+                        let keep_ast = sch.parse(ta).expect("twin parses");
+                        let fa = ast_a.compile();
+                        let got = guarded(|| {
+                            let fb = w1.scheme.parse(tb).expect("twin parses").compile();
+                            tctxs.iter().map(|c| fb.execute(c).expect("same scheme")).collect::<Vec<bool>>()
+                        });
+                        run.eval(tctxs.len() as u64);
+                        run.count("compilations_next_to_a_live_twin", 1);
+                        if got != Ok(baseline[b].clone()) {
+                            disagreements.push(format!("{tb:?} compiled while {ta:?} (on {} scheme) is alive answers {got:?}, compiled alone {:?}", if on_other_scheme { "another" } else { "the same" }, baseline[b]));
+                        }
+                        drop(fa);
+                        drop(keep_ast);
+                    }
+                }
+            }
+        }
         for d in disagreements {
             run.violation(format!("{ID}:repeated-execution:{d}"), format!("repeated / recompiled execution disagrees: {d}"), json!({"kind": "c18-repeat"}));
         }
